@@ -3860,9 +3860,11 @@ func (vm *Thread) opEqualInt() {
 	if left.IsSmallInt() {
 		left := left.AsSmallInt()
 		result = left.EqualVal(right)
-	} else {
-		leftBig := left.AsReference().(*value.BigInt)
+	} else if leftBig, ok := left.SafeAsReference().(*value.BigInt); ok {
 		result = leftBig.EqualVal(right)
+	} else {
+		// the compiler emits EQUAL_INT for a Float receiver as well
+		result = value.EqualVal(left, right)
 	}
 	vm.replace(result)
 }
